@@ -10,6 +10,7 @@ import (
 	"sync"
 	"time"
 
+	"github.com/q191201771/lal/pkg/gb28181"
 	"github.com/q191201771/lal/pkg/rtmp"
 	"github.com/q191201771/lal/pkg/rtsp"
 	"github.com/q191201771/naza/pkg/taskpool"
@@ -232,3 +233,29 @@ func VerifRelayActive(sm *ServerManager) (goroutines, pushAdds int) {
 
 // VerifRelayForget drops the accounting of a server (world closed).
 func VerifRelayForget(sm *ServerManager) { verifRelay.Delete(IGroupObserver(sm)) }
+
+// VerifPsPubSession / VerifRtspPubSession: the attached GB28181 / RTSP publisher of a stream.
+func VerifPsPubSession(sm *ServerManager, stream string) *gb28181.PubSession {
+	sm.mutex.Lock()
+	defer sm.mutex.Unlock()
+	if g := sm.getGroup("", stream); g != nil {
+		g.mutex.Lock()
+		defer g.mutex.Unlock()
+		return g.psPubSession
+	}
+	return nil
+}
+
+func VerifRtspPubSession(sm *ServerManager, stream string) *rtsp.PubSession {
+	sm.mutex.Lock()
+	defer sm.mutex.Unlock()
+	if g := sm.getGroup("", stream); g != nil {
+		g.mutex.Lock()
+		defer g.mutex.Unlock()
+		return g.rtspPubSession
+	}
+	return nil
+}
+
+// VerifApiHandler is the HTTP-API route table (built by the generated VerifMux) for this server.
+func VerifApiHandler(sm *ServerManager) http.Handler { return NewHttpApiServer("", sm).VerifMux() }
